@@ -11,7 +11,8 @@ LEVEL = "exploration"
 K_TOL = 64.0
 EPS = 2.0 ** -52
 RULE = ("Round trip: n steps, dt -> -dt, n steps.  JANUS (orders 2,4,6,8,10; scale_pos/scale_vel 1e-10..1e-16 "
-        "independently; N 2-6 hierarchical or comparable-mass systems; n <= 300; both signs of dt): the particle "
+        "independently; N 2-6 hierarchical or comparable-mass systems; n <= 300; both signs of dt; with and without "
+        "read-only pre/post_timestep_modifications / heartbeat observers installed): the particle "
         "bit patterns and the integer state p_int must equal those of the initial state put on the grid.  "
         "LEAPFROG, WHFast (4 coordinate systems, default kernel, no correctors, safe_mode 0/1), SABA types without "
         "correctors, EOS with unprocessed splittings on both levels, SEI: the state must return to the initial "
@@ -30,10 +31,37 @@ ASSUMPTIONS = [
 JANUS_ORDERS = [2, 4, 6, 8, 10]
 SABA_PLAIN = ["1", "2", "3", "4", "10,4", "8,6,4", "10,6,4", "h8,4,4", "h8,6,4", "h10,6,4"]
 EOS_PLAIN = ["lf", "lf4", "lf6", "lf8", "lf4_2", "lf8_6_4"]
-CLASSES = ["janus/order%d" % o for o in JANUS_ORDERS] + ["janus/on_grid", "janus/off_grid_image", "janus/dt<0"] + \
+CLASSES = ["%s/monitor:%s" % (a, b) for a in ("janus", "symmetric", "sei") for b in ("none", "pre", "post", "hb")] + \
+          ["janus/order%d" % o for o in JANUS_ORDERS] + ["janus/on_grid", "janus/off_grid_image", "janus/dt<0"] + \
           ["symmetric/leapfrog", "sei/sei", "sei/gravity", "sei/OMEGAZ"] + \
           ["symmetric/whfast:%s:%d" % (c, s) for c in S.WH_COORDS for s in (0, 1)] + \
           ["symmetric/saba:%s" % t for t in SABA_PLAIN] + ["symmetric/eos:%s" % t for t in EOS_PLAIN]
+
+# read-only observers a user may install: they never touch a particle, so they must not change the result
+monitors = st.sampled_from([[], [], ["post"], ["pre"], ["pre", "post"], ["hb"], ["pre", "post", "hb"]])
+
+
+def install_monitors(sim, which, ctx):
+    """Install read-only callbacks (they only read the time).  Returns the call log (kept alive by the caller)."""
+    seen = {"pre": 0, "post": 0, "hb": 0}
+
+    def mk(name):
+        def watch(simp):
+            _ = simp.contents.t        # read-only
+            seen[name] += 1
+        return watch
+    if "pre" in which:
+        sim.pre_timestep_modifications = mk("pre")
+    if "post" in which:
+        sim.post_timestep_modifications = mk("post")
+    if "hb" in which:
+        sim.heartbeat = mk("hb")       # only invoked by integrate(); installed to show that it is inert for steps()
+    for w in which:
+        ctx.cls("monitor:" + w)
+    if not which:
+        ctx.cls("monitor:none")
+    return seen
+
 
 # ---------------------------------------------------------------------------------------------------------
 # JANUS
@@ -46,6 +74,7 @@ janus_case = st.fixed_dictionaries({
     "n": st.one_of(st.integers(1, 300), st.integers(10, 60)),
     "dt_frac": st.sampled_from([0.003, 0.01, 0.02, 0.05]),
     "backward_first": st.booleans(),
+    "monitor": monitors,
 })
 XYZ = ("x", "y", "z", "vx", "vy", "vz")
 
@@ -87,6 +116,7 @@ def run_janus(c, ctx):
     sim.dt = dt
     n = c["n"]
     N = sim.N
+    seen = install_monitors(sim, c["monitor"], ctx)
     # expected: image of the initial state on the grid (equal to the initial bits when on_grid)
     expect_bits = []
     for i, q in enumerate(snapped):
@@ -121,6 +151,9 @@ def run_janus(c, ctx):
                         "one (%d coordinates; first: particle %d %s off by %d grid units) although the doubles agree"
                         % (c["order"], n, len(bad), bad[0][0], bad[0][1], bad[0][2]),
                         differing=bad[:12], scale_pos=sp, scale_vel=sv, dt=dt)
+    for k in ("pre", "post"):
+        if k in c["monitor"] and seen[k] != 2 * n:
+            raise RuntimeError("harness: %s monitor called %d times in %d steps" % (k, seen[k], 2 * n))
     for i in range(N):
         if sim.particles[i].m != snapped[i]["m"]:
             raise Violation("JANUS changed the mass of particle %d" % i)
@@ -155,6 +188,7 @@ sym_case = st.fixed_dictionaries({
     "n": st.one_of(st.integers(1, 200), st.integers(10, 60)),
     "dt_frac": st.sampled_from([0.005, 0.01, 0.02, 0.05]),
     "backward_first": st.booleans(),
+    "monitor": monitors,
 })
 
 sei_case = st.fixed_dictionaries({
@@ -168,6 +202,7 @@ sei_case = st.fixed_dictionaries({
     "n": st.one_of(st.integers(1, 200), st.integers(10, 60)),
     "dt_frac": st.sampled_from([0.005, 0.01, 0.02, 0.05]),
     "backward_first": st.booleans(),
+    "monitor": monitors,
 })
 
 
@@ -275,7 +310,8 @@ def run_sym(c, ctx):
     if p[0] == "eos":
         ctx.cls("eos_phi1:" + p[2])
     dt = c["dt_frac"] * sysd["P_min"] * (-1.0 if c["backward_first"] else 1.0)
-    round_trip(sim, c["n"], dt, ctx, c["scheme"], sysd["P_min"], dict(scheme=c["scheme"]))
+    seen = install_monitors(sim, c["monitor"], ctx)      # noqa: F841 (keeps the callbacks alive)
+    round_trip(sim, c["n"], dt, ctx, c["scheme"], sysd["P_min"], dict(scheme=c["scheme"], monitor=c["monitor"]))
 
 
 def run_sei(c, ctx):
@@ -306,6 +342,7 @@ def run_sei(c, ctx):
     P = 2 * math.pi / Om
     dt = c["dt_frac"] * P * (-1.0 if c["backward_first"] else 1.0)
     ctx.cls("sei")
+    seen = install_monitors(sim, c["monitor"], ctx)      # noqa: F841
     round_trip(sim, c["n"], dt, ctx, "sei", P, dict(OMEGA=Om), dmin=0.05 if c["gravity"] == "basic" else None)
 
 
